@@ -10,7 +10,7 @@ for f in sorted(glob.glob(os.path.join(ROOT, "seeded", "*", "meta.json"))):
     checks = ", ".join("%s: exit %d, %d VIOLATION lines" % (k, v["exit"], v["violation_lines"]) for k, v in sorted(m["checks"].items()))
     note = m.get("history", "")
     rows.append("| `%s` | %s | %s | %s | %s%s |" % (name, m["breaks_property"], m["needs_to_manifest"].replace("|", "/"),
-                                                 "yes" if m["caught"] else "**NO**", checks, (" — " + note) if note else ""))
+                                                 "yes" if m["caught"] else ("no (outside the claim)" if m.get("outside_claim") else "**NO**"), checks, (" — " + note) if note else ""))
 table = ["| seeded change (`seeded/<name>/`) | property | needs, to manifest | caught | quick check result |", "|---|---|---|---|---|"] + rows
 p = os.path.join(ROOT, "DESIGN.md")
 s = open(p).read()
